@@ -6,6 +6,8 @@
 //	                                      enc=err | enc=panic
 //	stack=S kind=K op=dec data=<hex>   => dec=ok g=<fields> raw=<0|1> re=<ok|diff|err|panic>
 //	                                      dec=rej | dec=panic
+//	stack=S kind=K op=cap data=<hex>   => as op=dec; data is a message captured from a real handshake
+//	                                      (phase `captured`, see capture.go)
 //
 // enc: build the message from the fields, marshal it, unmarshal the result with a fresh object.
 // dec: unmarshal the bytes; `raw` = marshal() of the same object returns the input (the cache the
@@ -96,6 +98,10 @@ func (d *driver) replay(path string) {
 		case "dec":
 			h, _ := hx.KV(c, "data")
 			d.dec(stack, kind, hx.UnHex(h))
+		case "cap":
+			h, _ := hx.KV(c, "data")
+			data := hx.UnHex(h)
+			d.t.Line(fmt.Sprintf("stack=%s kind=%s op=cap data=%s", stack, kind, hx.Hex(data)), runDec(stack, kind, data))
 		}
 	}
 }
@@ -117,6 +123,8 @@ func main() {
 	case "", "codec":
 		d.witnesses()
 		d.generated(budget)
+	case "captured":
+		d.captured()
 	case "search": // violation search after a broken proof / disagreement: bounded, other seed
 		d.witnesses()
 		d.generated(3)
